@@ -26,10 +26,10 @@ DONE = {
 
 DONE.update({
  "C06": ("psim", "model_checking", "stateless exhaustive schedule enumeration under a controlled single-thread scheduler (deviation-bounded DFS); close histories x schedules with bystander streams; open/close cycles against a scripted raw peer re-using one flow id; flow-table hook for the leak clause",
-         "every pair of close histories of a victim stream next to a bystander and a follow-up stream under every schedule within the bound; every sequence of up to L open/close cycles over 8 variants with forced re-use of the same id",
+         "every pair of close histories of a victim stream next to a bystander and a follow-up stream under every schedule within the bound; every sequence of up to L open/close cycles over 13 variants with forced re-use of the same id",
          "re-use probed at link quiescence (old-incarnation frames still in flight are outside the statement); poll granularity"),
  "C10": ("psim", "fault_enumeration", "bounded-exhaustive enumeration of peer frame sequences from every slot state against a real endpoint and a scripted raw peer, reference-decoded replies",
-         "every frame sequence up to length L over the alphabet (all opcodes x ids {0, victim, unknown} + bystander id + overrun) and terminal invalid messages, from each of 7 slot states, binds on and off; reply rules, bystander integrity, liveness, no panic",
+         "every frame sequence up to length L over the alphabet (all opcodes x ids {0, victim, unknown} + bystander id + window overrun + a datagram flood into an application that takes no datagrams out) and terminal invalid messages, from each of 9 slot states, binds on and off; reply rules, bystander integrity, liveness, no panic",
          "replies asserted only where PROTOCOL.md/the statement is explicit; hook used for preconditions and 'flow untouched'"),
  "C18": ("enum+e2e", "exploration", "bounded-exhaustive enumeration of SOCKS4/4a/5 requests, replies and UDP headers (all truncations, two delivery modes) against an independent RFC 1928 / SOCKS4a reference; plus a complete matrix of conversations with the real SOCKS listener of the real client on loopback (part C18W), replies judged byte-exactly",
          "exhaustive products over versions, commands, address types, every domain length 0..255, ports, truncation points and trailers for the readers; all reply codes x address corners for the writers; UDP relay round trip through a reference client parser; wire level: SOCKS4/4a command codes x user-id x address form x reachable/refusing target, SOCKS5 method lists x CMD x ATYP x target, wrong versions, every truncation point followed by a half-close",
